@@ -178,6 +178,22 @@ func (fx *fsExplorer) model(in *Interp, site ssa.CallInstruction, name string, a
 		return Iface{Dyn: types.Typ[types.Invalid], V: Opaque{"fi(" + pathKey + "):" + kind, res.At(0).Type()}}
 	}
 	switch name {
+	case "(context.Context).Err":
+		// a cancelled context is a fault of the environment, like a failing
+		// operating-system call
+		cancelled := Iface{Dyn: types.Typ[types.Invalid], V: Opaque{"global:context.Canceled", errorType}}
+		if fx.nCalls["ctx-cancelled"] > 0 {
+			return cancelled, true // once cancelled, cancelled for good: one fault
+		}
+		fx.nCalls[name]++
+		k := fmt.Sprintf("ctx.Err#%d", fx.nCalls[name])
+		o := []string{"live", "cancelled"}[in.chooseLabeled(k, []string{"live", "cancelled"})]
+		if o == "live" {
+			return kNil, true
+		}
+		fx.nCalls["ctx-cancelled"]++
+		fx.os = append(fx.os, osOutcome{Call: "ctx.Err", Role: "other", Outcome: "cancelled", Pos: pos})
+		return Iface{Dyn: types.Typ[types.Invalid], V: Opaque{"global:context.Canceled", errorType}}, true
 	case "path/filepath.Join":
 		hp := false
 		rooted := false
@@ -1020,6 +1036,13 @@ func (run *fsRun) replay() (changes []string, feasible bool, faults int, forced 
 	}
 	for idx, o := range run.OS {
 		switch o.Call {
+		case "ctx.Err":
+			// a cancelled context is one event with the read error it
+			// usually surfaces as: it does not make a second fault
+			if faults == 0 {
+				faults++
+			}
+			continue
 		case "os.Stat", "Walk.lstat":
 			s := get(o.Role)
 			if !touched[o.Role] && s.init == "unknown" {
@@ -1052,6 +1075,10 @@ func (run *fsRun) replay() (changes []string, feasible bool, faults int, forced 
 					why = "the " + o.Role2 + " still exists as a collection and os.Rename cannot replace a directory"
 				case a == "dir" && b == "file" && o.Outcome == "ENOTDIR":
 					why = "the " + o.Role + " is a collection and the " + o.Role2 + " still exists as a file"
+				case a == "" && get(o.Role).cur == "unknown" && b == "file" && o.Outcome == "ENOTDIR":
+					// the source has never been examined: it may well be a
+					// collection, and then this rename cannot succeed
+					why = "the " + o.Role + " (never examined) may be a collection while the " + o.Role2 + " still exists as a file"
 				case a == "ENOENT" && o.Outcome == "ENOENT":
 					why = "the " + o.Role + " does not exist"
 				}
